@@ -543,6 +543,65 @@ def work_bytes(task):
 
 
 # ------------------------------------------------------------------ part C: e2e screen programs
+LIVE_SCREEN_PROGRAM = """
+def output_u16 val {
+    rep(2, i) stl.output_char (val >> (8*i)) & 0xFF
+}
+def output_address addr {
+    rep(w, i) stl.output_bit (addr >> i) & 1
+}
+
+stl.startup
+
+stl.output_char 1            // init_screen 4x2, 8 bpp, 2 palette entries
+output_u16 4
+output_u16 2
+stl.output_char 8
+output_u16 2
+stl.output_char 2            // set_palette
+output_address palette
+stl.output_char 3            // update_screen
+output_address screen
+
+screen+dbit;                 // pixel 0: 0 -> 1
+screen+7*dw+dbit;            // pixel 7: 0 -> 1
+screen+2*dw+dbit;            // pixel 2: 1 -> 0
+palette+4*dw+dbit+2;         // palette entry 1, green: 100 -> 96
+palette+dbit+6;              // palette entry 0, red: 10 -> 74
+
+stl.output_char 2            // set_palette again
+output_address palette
+stl.output_char 3            // update_screen again
+output_address screen
+stl.output_char 4            // update_rectangle x=1 y=0 w=3 h=2
+output_u16 1
+output_u16 0
+output_u16 3
+output_u16 2
+output_address screen
+
+stl.loop
+
+palette:
+    ;10  * dw
+    ;20  * dw
+    ;30  * dw
+    ;200 * dw
+    ;100 * dw
+    ;0   * dw
+
+screen:
+    ;0 * dw
+    ;1 * dw
+    ;1 * dw
+    ;1 * dw
+    ;1 * dw
+    ;0 * dw
+    ;1 * dw
+    ;0 * dw
+"""
+
+
 def work_c(task):
     from fjv.asm import assemble_text
     from fjv.enginecheck import scratch
@@ -562,16 +621,29 @@ def work_c(task):
         j = src.find('"""', i + len(name) + 6)
         progs[name] = src[i + len(name) + 6:j]
     del ns
+    # a third program that CHANGES its framebuffer and its palette between two presents (the repository's two only show static data): the
+    # second frame must show the current memory - also when the flat window of the hybrid storage ends inside the framebuffer / the palette
+    progs['LIVE_SCREEN_PROGRAM'] = LIVE_SCREEN_PROGRAM
     stats = {'runs': 0, 'programs': len(progs)}
     for name, text in progs.items():
         out = scratch() / f'{name}-{w}.fjm'
+        dbg = scratch() / f'{name}-{w}.fjd'
         try:
-            assemble_text(text, out, scratch(), w=w, version=1)
+            assemble_text(text, out, scratch(), w=w, version=1, debug_path=dbg)
         except Exception as e:  # noqa  (w=16 may not fit - not this property's concern)
             stats['skipped_assembly'] = stats.get('skipped_assembly', 0) + 1
             continue
+        modes = list(MODES)
+        from flipjump.utils.functions import load_debugging_labels
+        labels = load_debugging_labels(dbg)
+        for lab, offs in (('screen', (1, 3, 8, 15)), ('palette', (2, 5, 11))):
+            if lab in labels:
+                for off in offs:
+                    cut = labels[lab] // w + off
+                    modes.append((f'hybrid-cut-{lab}+{off}', 'native', None, {'flat_max_words': cut}, {}))
+                    modes.append((f'hybrid-cut-{lab}+{off}-ring', 'native', 5, {'flat_max_words': cut}, {}))
         views = {}
-        for mode in MODES:
+        for mode in modes:
             mname, engine, ring, kw, env = mode
             kwargs, e2 = ENGINES[engine]
             kwargs = dict(kwargs)
